@@ -107,6 +107,10 @@ def c18_extras(seed, tier):
         x = 0.17
         return C(np.diag([1., 1.3]), [[np.array([0., 0.]), np.array([.5, .5])], [np.array([x, 0.1]), np.array([.5 - x, .6])]])
     out.append(('glide-2D-special-positions', glide2d_special))
+    # three sublattices carrying the three cube roots of unity: the translation from one sublattice to the next is a symmetry with
+    # phase exp(2 pi i / 3), and three-fold phases are needed for two-fold operations as well
+    out.append(('complex-scalar-spins-cube-roots-on-three-sublattices', lambda: C(HEX, [[np.zeros(3), np.array([1 / 3, 2 / 3, 0.]), np.array([2 / 3, 1 / 3, 0.])]],
+                                                                           spins=[[1., np.exp(2j * np.pi / 3), np.exp(4j * np.pi / 3)]])))
     out.append(('complex-scalar-spins', lambda: C(HEX, [[np.array([1 / 3, 2 / 3, .25]), np.array([2 / 3, 1 / 3, .75])]], spins=[[1, np.exp(2j * np.pi / 3)]])))
     def nglide(nspecies):
         gl = lambda u: np.array([u[0] + 0.5, -u[1], u[2] + 0.5])
